@@ -36,36 +36,80 @@ def check(model, R, tier):
 
 
 def check_layer_geom(model, R):
-    R.rule('C06.LAYER-GEOM', 'layer constructors normalise int-or-tuple geometry before storing / subscripting it; a missing stride defaults to the kernel size', floor=8)
+    """layer constructors evaluated (sa/peval.py) with int-form geometry arguments: the value stored on the layer is the per-axis pair; a missing stride
+    becomes the kernel size.  The functional pools are evaluated with stride=None: the forward kernel receives the kernel size as stride."""
+    from sa.peval import PE, Vec
+    R.rule('C06.LAYER-GEOM', 'layer constructors store int-or-tuple geometry expanded per axis (np.broadcast_to) - evaluated with the int form; a missing stride defaults to the kernel size', floor=8)
+    A = P.atom
+
+    def pairs(name):
+        return [A('%s[0]' % name), A('%s[1]' % name)]
+
+    def is_pair(v, name):
+        return isinstance(v, (Vec, tuple, list)) and len(v) == 2 and all(isinstance(x, P) for x in v) and list(v) == pairs(name)
+
+    def hook(pe, name, e, args, kw, env, func, depth):
+        n = name or ''
+        if n.startswith('synapgrad.tensor.') or n.startswith('synapgrad.empty') or n.endswith('.Parameter') or n.startswith('synapgrad.nn.init.'):
+            return Opaque_(n)
+        return NotImplemented
+    from sa.peval import Opaque as Opaque_
     for cls in ('Unfold', 'Fold', 'MaxPool2d', 'AvgPool2d', 'Conv2d'):
         f = model.func('%s.%s.__init__' % (LY, cls))
-        cfg = CFG(f.node)
-        for p in [p for p in f.params if p in RC.GEOM]:
-            stores = [n for n in body_walk(f.node) if isinstance(n, ast.Assign) and norm(n.targets[0]) == 'self.' + p]
-            norms = [n for n in body_walk(f.node) if isinstance(n, ast.Assign) and norm(n.targets[0]) == p and isinstance(n.value, ast.Call) and model.resolve(f.mod, n.value.func) == 'numpy.broadcast_to'
-                     and norm(n.value.args[0]) == p and norm(n.value.args[1]) == '2']
-            ok = len(stores) >= 1 and all(norm(s.value) == p for s in stores)
-            if p == 'stride' and isinstance(f.defaults().get('stride'), ast.Constant) and f.defaults()['stride'].value is None:
-                dflt = [n for n in body_walk(f.node) if isinstance(n, ast.Assign) and norm(n.targets[0]) == 'stride' and norm(n.value) == 'kernel_size']
-                ok = ok and len(dflt) == 1 and ('stride is None', True) in {(t, q) for t, q, _ in facts_at(cfg, dflt[0])} and all(cfg.dominates(_top(f, dflt[0]), s) for s in stores)
-                ok = ok and bool(norms) and all(('stride is None', False) in {(t, q) for t, q, _ in facts_at(cfg, n)} or not cfg.conditions(n) for n in norms)
-            else:
-                ok = ok and len(norms) == 1 and all(cfg.dominates(norms[0], s) for s in stores)
-            R.ob('C06.LAYER-GEOM', f.qualname, '%s: broadcast_to(.., 2) before self.%s = %s' % (p, p, p), ok, 'the documented int form must be expanded per axis before it is stored', f.loc)
+        geo = [p for p in f.params if p in RC.GEOM]
+        dflt_none = [p for p in geo if isinstance(f.defaults().get(p), ast.Constant) and f.defaults()[p].value is None]
+        for none_case in ([False, True] if dflt_none else [False]):
+            args = {p: A(p) for p in f.pos_params[1:]}
+            if none_case:
+                for p in dflt_none:
+                    args[p] = None
+            try:
+                outs = PE(model, call_hook=hook, atoms_not_none=True, default_pred=lambda t: False if ("== 'valid'" in t or "== 'same'" in t or 'isinstance(padding, str)' in t) else None, max_depth=3).paths(f, args, max_paths=64)
+            except Incomplete as u:
+                R.incomplete_at('C06.LAYER-GEOM', f.qualname, str(u))
+                continue
+            outs = [o for o in outs if o.kind != 'raise']
+            for p in geo:
+                bad = []
+                for o in outs:
+                    st = [v for k, v, s_ in o.stores if k == 'self.' + p]
+                    want_name = 'kernel_size' if (none_case and p in dflt_none) else p
+                    if not st or not is_pair(st[-1], want_name):
+                        bad.append(repr(st[-1]) if st else 'not stored')
+                R.ob('C06.LAYER-GEOM', f.qualname, '%s%s: self.%s = per-axis pair' % (p, ' (=None)' if none_case and p in dflt_none else '', p), bool(outs) and not bad,
+                     'the documented int form must be expanded per axis before it is stored%s: got %s' % (' (a missing stride is the kernel size)' if none_case else '', bad[:2]), f.loc)
     for cls in ('MaxPool1d', 'AvgPool1d'):
         f = model.func('%s.%s.__init__' % (LY, cls))
-        cfg = CFG(f.node)
-        dflt = [n for n in body_walk(f.node) if isinstance(n, ast.Assign) and norm(n.targets[0]) == 'stride' and norm(n.value) == 'kernel_size']
-        st = [n for n in body_walk(f.node) if isinstance(n, ast.Assign) and norm(n.targets[0]) == 'self.stride']
-        ok = len(dflt) == 1 and len(st) == 1 and ('stride is None', True) in {(t, q) for t, q, _ in facts_at(cfg, dflt[0])} and cfg.dominates(_top(f, dflt[0]), st[0]) and norm(st[0].value) == 'stride'
+        args = {p: A(p) for p in f.pos_params[1:]}
+        args['stride'] = None
+        try:
+            outs = [o for o in PE(model, call_hook=hook, atoms_not_none=True, max_depth=3).paths(f, args) if o.kind != 'raise']
+        except Incomplete as u:
+            R.incomplete_at('C06.LAYER-GEOM', f.qualname, str(u))
+            continue
+        ok = bool(outs) and all([v for k, v, s_ in o.stores if k == 'self.stride'][-1:] == [A('kernel_size')] for o in outs)
         R.ob('C06.LAYER-GEOM', f.qualname, 'stride=None defaults to kernel_size', ok, 'default stride of pooling is the kernel size', f.loc)
+    from sa.rules_flags import _hooks, TObj, TENSOR
+    ch, ah, sh, dp, cmh = _hooks(model, model.func(TENSOR + '.__init__'))
     for fn in ('max_pool1d', 'max_pool2d', 'avg_pool1d', 'avg_pool2d'):
         f = model.func('synapgrad.nn.functional.' + fn)
-        cfg = CFG(f.node)
-        dflt = [n for n in body_walk(f.node) if isinstance(n, ast.Assign) and norm(n.targets[0]) == 'stride' and norm(n.value) == 'kernel_size']
-        calls = [RC._stmt(f, c) for c in ast.walk(f.node) if isinstance(c, ast.Call) and fn + '_forward' in norm(c.func)]
-        ok = len(dflt) == 1 and ('stride is None', True) in {(t, q) for t, q, _ in facts_at(cfg, dflt[0])} and calls and all(cfg.dominates(_top(f, dflt[0]), c) for c in calls)
-        R.ob('C06.LAYER-GEOM', f.qualname, 'stride=None defaults to kernel_size before the kernel call', bool(ok), 'default stride of pooling is the kernel size', f.loc)
+        args = {p: A(p) for p in f.pos_params[1:]}
+        args[f.pos_params[0]] = TObj(f.pos_params[0])
+        args['stride'] = None
+        try:
+            outs = PE(model, preds={'%s.requires_grad' % f.pos_params[0]: False}, call_hook=ch, attr_hook=ah, sub_hook=sh, default_pred=dp, comp_hook=cmh, atoms_not_none=True, max_depth=2).paths(f, args, max_paths=64)
+        except Incomplete as u:
+            R.incomplete_at('C06.LAYER-GEOM', f.qualname, str(u))
+            continue
+        kc = [r for o in outs if o.kind == 'return' for r, conds in o.user.get('kcalls', []) if r.kname.endswith(fn + '_forward')]
+        kf = model.funcs.get('synapgrad.cpu_ops.%s_forward' % fn)
+        ok = bool(kc) and kf is not None
+        if ok:
+            for r in kc:
+                b = dict(zip(kf.pos_params, r.args))
+                b.update(r.kw)
+                ok = ok and isinstance(b.get('stride'), P) and b['stride'] == b.get('kernel_size')
+        R.ob('C06.LAYER-GEOM', f.qualname, 'stride=None: the forward kernel receives stride = kernel_size', bool(ok), 'default stride of pooling is the kernel size', f.loc)
 
 
 def _top(f, st):
